@@ -40,6 +40,13 @@ MICRO_INV = ["exponential", "independent_sphere", "sticky_hard_spheres", "teubne
 
 def em(name):
     from smrt.core.plugin import import_class
+    if name.startswith("derived_"):
+        # the public factories: a theory with another effective-permittivity (mixing) formula, e.g. derived_SCETK21:polder_van_santen
+        import importlib
+        fac, formula = name.split(":")
+        module = {"derived_IBA": "iba", "derived_SCETK21": "sce_torquato21", "derived_SymSCETK21": "symsce_torquato21"}[fac]
+        from smrt.permittivity import generic_mixing_formula as g
+        return getattr(importlib.import_module("smrt.emmodel." + module), fac)(getattr(g, formula))
     return import_class("emmodel", name)
 
 
@@ -356,7 +363,9 @@ def correspond(ctx):
 # ---------------------------------------------------------------------------------------------
 # the property itself on the implementation
 
-RAYLEIGH_LIKE = ["iba", "iba_original", "iba_maxwell_garnett", "sce_torquato21", "symsce_torquato21"]
+RAYLEIGH_LIKE = ["iba", "iba_original", "iba_maxwell_garnett", "sce_torquato21", "symsce_torquato21",
+                 # the same theories built by their factories on the other shipped two-phase mixing formula
+                 "derived_IBA:maxwell_garnett_for_spheres", "derived_SCETK21:polder_van_santen", "derived_SymSCETK21:maxwell_garnett_for_spheres"]
 SYMMETRIC = ["symsce_torquato21", "symsce_torquato21_shortrange"]
 
 
